@@ -213,6 +213,44 @@ fn wantlist_flows(sim: &Sim, a: usize, b: usize) -> (Vec<(String, u64)>, Vec<Str
     (handed, received)
 }
 
+/// Blocks (data ids) node a's server behaviour dispatched to peer b, the blocks b received from a,
+/// and whether any connection between the two was closed during the run.
+fn block_flows(sim: &Sim, a: usize, b: usize) -> (Vec<String>, Vec<String>, bool) {
+    let ra = sim.nodes[a].rec.lock().unwrap();
+    let mut dispatched = vec![];
+    let tag = format!("blk:{b}:");
+    for l in ra.imp.iter() {
+        let head = l.split(" ## ").next().unwrap_or("");
+        for t in head.split(' ') {
+            if let Some(bs) = t.strip_prefix(&tag) {
+                for e in bs.split('+').filter(|e| !e.is_empty()) {
+                    dispatched.push(e.rsplit('.').next().unwrap_or("").to_string());
+                }
+            }
+        }
+    }
+    let closed = ra.ops.iter().any(|o| {
+        let f: Vec<&str> = o.split(' ').collect();
+        f.len() >= 3 && f[1] == "closed" && f[2] == b.to_string()
+    });
+    drop(ra);
+    let rb = sim.nodes[b].rec.lock().unwrap();
+    let mut received = vec![];
+    for o in rb.ops.iter() {
+        let f: Vec<&str> = o.split(' ').collect();
+        if f.len() == 7 && f[1] == "msg" && f[2] == a.to_string() {
+            for e in f[5].trim_start_matches("b=").split(',').filter(|e| !e.is_empty()) {
+                received.push(e.rsplit(':').next().unwrap_or("").to_string());
+            }
+        }
+    }
+    let closed = closed || rb.ops.iter().any(|o| {
+        let f: Vec<&str> = o.split(' ').collect();
+        f.len() >= 3 && f[1] == "closed" && f[2] == a.to_string()
+    });
+    (dispatched, received, closed)
+}
+
 /// canonical form of a received wantlist `F/k,k!,..` comparable with the sender's `F|wh=|wb=|cn=`:
 /// (full flag, sorted wanted keys, sorted cancelled keys)
 fn canon_received(w: &str) -> (bool, Vec<String>, Vec<String>) {
@@ -463,6 +501,36 @@ pub fn run_one(seed: u64, cfg: &SimCfg) -> RunResult {
                 if wants != rec {
                     violations.push(("C14".into(), format!("nothing in flight after a refresh, yet node {b}'s record of node {a}'s wants {rec:?} differs from node {a}'s live wants {wants:?}")));
                 }
+            }
+        }
+    }
+    // C06 / C07 at the network level: the blocks node a's server dispatched to peer b against the
+    // blocks b received from a (data ids as multisets; with several connections the order is free)
+    for a in 0..n {
+        for b in 0..n {
+            if a == b {
+                continue;
+            }
+            let (dispatched, received, pair_closed) = block_flows(&sim, a, b);
+            *stats.entry("sim.blocks.dispatched".into()).or_insert(0) += dispatched.len() as u64;
+            *stats.entry("sim.blocks.received".into()).or_insert(0) += received.len() as u64;
+            let mut left = dispatched.clone();
+            for d in &received {
+                match left.iter().position(|x| x == d) {
+                    Some(i) => {
+                        left.swap_remove(i);
+                    }
+                    None => {
+                        violations.push(("C07".into(), format!("node {b} received block {d} from node {a} more often than node {a}'s server dispatched it to that peer ({} times)", dispatched.iter().filter(|x| *x == d).count())));
+                        break;
+                    }
+                }
+            }
+            // two dispatches of one block may share a frame (the receiver keys blocks by CID), so
+            // arrival is judged per block, not per dispatch
+            let missing: BTreeSet<&String> = dispatched.iter().filter(|d| !received.contains(d)).collect();
+            if !pair_closed && !missing.is_empty() {
+                violations.push(("C06".into(), format!("node {a}'s server dispatched blocks {missing:?} to node {b} which never arrived although no connection between them was closed")));
             }
         }
     }
